@@ -770,9 +770,9 @@ Lemma pump_rd cf fuel : forall s n,
   end.
 Proof.
   induction fuel as [|f IHf]; intros s n; cbn [pump].
-  { destruct (s_rd s); eauto. }
+  { cbn [fst]. destruct (s_rd s); eauto. }
   destruct (s_net s) as [|d t].
-  { destruct (s_rd s); eauto. }
+  { cbn [fst]. destruct (s_rd s); eauto. }
   pose proof (IHf (poke cf (deliver_dgram cf (set_net s t) d)) (n + 1)) as IH. rewrite poke_rd in IH.
   pose proof (deliver_dgram_rd cf (set_net s t) d) as Hd. cbn [s_rd set_net] in Hd.
   destruct (s_rd s); [destruct Hd as [r' Hr']; rewrite Hr' in IH; exact IH|rewrite Hd in IH; exact IH].
@@ -865,7 +865,7 @@ Lemma step_NInv cf s a : NInv s -> NInv (fst (step cf s a)).
 Proof.
   intros H. destruct (s_rd s) as [r|] eqn:Er.
   { destruct (step_rd_some cf s a r Er) as [r' Hr']. intros Hn. congruence. }
-  destruct (H eq_refl) as [Hnet Hrp]. unfold step.
+  destruct (H Er) as [Hnet Hrp]. unfold step.
   assert (Triv : forall s1, s_rp s1 = None -> s_net s1 = [] -> NInv (poke cf s1)).
   { intros s1 A B. rewrite poke_rp_none by assumption. intros _. tauto. }
   destruct a; cbn [act].
@@ -913,8 +913,9 @@ Definition above (B : Z) (c : change) : Prop := B < c_sn c.
 Record VInv (B : Z) (s : state) : Prop := mkVInv {
   v_rp : match s_rp s with
          | Some p => rp_rel p = true /\ (forall c, In c (s_changes s) -> rp_fr p < c_sn c -> B < c_sn c)
-         | None => False
+         | None => True     (* the reader was deleted: nothing is sent any more *)
          end;
+  v_rd_some : s_rd s <> None;
   v_last : B <= s_last s;
   v_net : Forall (data_dg (above B) (Z.lt B)) (s_net s);
   v_rd : match s_rd s with None => True | Some r => RInv (above B) r end
@@ -922,25 +923,25 @@ Record VInv (B : Z) (s : state) : Prop := mkVInv {
 
 Lemma VInv_send B s out : VInv B s -> Forall (data_dg (above B) (Z.lt B)) out -> VInv B (send s out).
 Proof.
-  intros [H1 H2 H3 H4] Ho. constructor; cbn; try assumption.
+  intros [H1 H0 H2 H3 H4] Ho. constructor; cbn; try assumption.
   apply Forall_app; split; [assumption|]. apply Forall_filter. assumption.
 Qed.
 
 Lemma VInv_set_rp B s p q : VInv B s -> s_rp s = Some p -> rp_static q = rp_static p -> VInv B (set_rp s (Some q)).
 Proof.
-  intros [H1 H2 H3 H4] Hp Hs. rewrite Hp in H1. apply static_fr in Hs. destruct Hs as (A & B' & _).
+  intros [H1 H0 H2 H3 H4] Hp Hs. rewrite Hp in H1. apply static_fr in Hs. destruct Hs as (A & B' & _).
   constructor; cbn; try assumption. rewrite A, B'. exact H1.
 Qed.
 Lemma VInv_set_waits B s w : VInv B s -> VInv B (set_waits s w).
-Proof. intros [H1 H2 H3 H4]. constructor; cbn; assumption. Qed.
+Proof. intros [H1 H0 H2 H3 H4]. constructor; cbn; assumption. Qed.
 Lemma VInv_set_net B s n : VInv B s -> Forall (data_dg (above B) (Z.lt B)) n -> VInv B (set_net s n).
-Proof. intros [H1 H2 H3 H4] Hn. constructor; cbn; assumption. Qed.
+Proof. intros [H1 H0 H2 H3 H4] Hn. constructor; cbn; assumption. Qed.
 Lemma VInv_set_rd B s r : VInv B s -> RInv (above B) r -> VInv B (set_rd s (Some r)).
-Proof. intros [H1 H2 H3 H4] Hr. constructor; cbn; assumption. Qed.
+Proof. intros [H1 H0 H2 H3 H4] Hr. constructor; cbn; try assumption. discriminate. Qed.
 
 Lemma poke_VInv B cf s : VInv B s -> VInv B (poke cf s).
 Proof.
-  intros H. unfold poke. pose proof (v_rp B s H) as Hp. destruct (s_rp s) as [p|] eqn:Ep; [|contradiction].
+  intros H. unfold poke. pose proof (v_rp B s H) as Hp. destruct (s_rp s) as [p|] eqn:Ep; [|assumption].
   destruct Hp as [Hrel Hch].
   pose proof (write_message_static cf (s_now s) (s_changes s) p) as Hs.
   assert (Ha : Forall (data_dg (above B) (Z.lt B)) (snd (write_message cf (s_now s) (s_changes s) p))).
@@ -952,7 +953,7 @@ Qed.
 Lemma deliver_sub_W_VInv B cf s m : VInv B s -> data_sub (above B) (Z.lt B) m -> VInv B (deliver_sub_W cf s m).
 Proof.
   intros H Hm. unfold deliver_sub_W. pose proof (v_rp B s H) as Hp.
-  destruct (s_rp s) as [p|] eqn:Ep; [|contradiction]. destruct Hp as [Hrel Hch].
+  destruct (s_rp s) as [p|] eqn:Ep; [|assumption]. destruct Hp as [Hrel Hch].
   destruct m; try assumption.
   - pose proof (on_acknack_data (above B) (Z.lt B) cf (s_now s) (s_changes s) p base set count Hch) as Ha.
     pose proof (on_acknack_static cf (s_now s) (s_changes s) p base set count) as Hs.
@@ -978,6 +979,7 @@ Lemma deliver_dgram_VInv B cf s d : VInv B s -> data_dg (above B) (Z.lt B) d -> 
 Proof.
   intros H Hd. unfold deliver_dgram. destruct (dg_toR d).
   - destruct (s_rdead s); [assumption|]. destruct (s_rd s) as [r|] eqn:Er; [|assumption].
+    destruct (rd_alive r); [|assumption].
     destruct (deliver_subs_R cf r (dg_subs d) []) as [r1 out] eqn:E.
     pose proof (v_rd B s H) as Hr. rewrite Er in Hr.
     destruct (deliver_subs_R_RInv (above B) (Z.lt B) (fun c Hc => Hc) cf (dg_subs d) r [] r1 out Hd Hr (Forall_nil _) E)
@@ -1013,8 +1015,8 @@ Proof.
   assert (Hc : incl chs1 (s_changes s)).
   { match type of E with (match ?o with _ => _ end) = _ => destruct o end; inversion E; subst; [|apply incl_refl].
     intros x Hx. apply filter_In in Hx. tauto. }
-  destruct H as [H1 H2 H3 H4]. cbn [fst]. constructor; cbn; try assumption; [|lia].
-  destruct (s_rp s) as [p|]; [|contradiction]. destruct H1 as [Hrel Hch]. split; [assumption|].
+  destruct H as [H1 H0 H2 H3 H4]. cbn [fst]. constructor; cbn; try assumption; [|lia].
+  destruct (s_rp s) as [p|]; [|exact I]. destruct H1 as [Hrel Hch]. split; [assumption|].
   intros c Hin Hlt. apply in_app_or in Hin. destruct Hin as [Hin|[<-|[]]]; [apply Hch; auto|cbn; lia].
 Qed.
 
@@ -1023,10 +1025,10 @@ Proof.
   intros H. destruct a; cbn [act].
   - (* AWrite *) pose proof (do_write_VInv B cf s key len sum H) as Hw.
     destruct (do_write cf s key len sum) as [s1 code]. exact Hw.
-  - (* ARemove *) destruct H as [H1 H2 H3 H4]. constructor; cbn; try assumption.
-    destruct (s_rp s) as [p|]; [|contradiction]. destruct H1 as [Hrel Hch]. split; [assumption|].
+  - (* ARemove *) destruct H as [H1 H0 H2 H3 H4]. constructor; cbn; try assumption.
+    destruct (s_rp s) as [p|]; [|exact I]. destruct H1 as [Hrel Hch]. split; [assumption|].
     intros c Hin. apply filter_In in Hin. apply Hch. tauto.
-  - (* ATick *) destruct H as [H1 H2 H3 H4]. constructor; cbn; assumption.
+  - (* ATick *) destruct H as [H1 H0 H2 H3 H4]. constructor; cbn; assumption.
   - (* ADeliver *) destruct (nth_error (s_net s) i) as [d|] eqn:E; [|assumption]. cbn [fst].
     destruct (VInv_take_net B s i d H E) as [Hs Hd]. apply deliver_dgram_VInv; assumption.
   - (* ADrop *) destruct (nth_error (s_net s) i) as [d|] eqn:E; [|assumption]. cbn [fst].
@@ -1036,18 +1038,22 @@ Proof.
     apply deliver_dgram_VInv; [|assumption]. apply poke_VInv. apply deliver_dgram_VInv; assumption.
   - (* APump *) pose proof (pump_VInv B cf pump_fuel s 0 H) as Hp.
     destruct (pump pump_fuel cf s 0) as [s1 n]. exact Hp.
-  - (* ATake *) destruct (s_rd s) as [r|] eqn:Er; [|assumption]. cbn [fst].
+  - (* ATake *) destruct (s_rd s) as [r|] eqn:Er; [|assumption]. destruct (rd_alive r); [|assumption]. cbn [fst].
     pose proof (v_rd B s H) as Hr. rewrite Er in Hr.
-    destruct H as [H1 H2 H3 H4]. constructor; cbn; try assumption.
+    destruct H as [H1 H0 H2 H3 H4]. constructor; cbn; try assumption. discriminate.
   - (* AMatch *) destruct (s_rd s) as [r|] eqn:Er; [assumption|].
-    pose proof (v_rp B s H) as Hp. destruct (s_rp s) as [p|]; [|contradiction].
-    rewrite orb_true_r. assumption.
-  - (* ADelReader *) destruct H as [H1 H2 H3 H4]. constructor; cbn; try assumption. exact I.
-  - (* ADelPart *) destruct H as [H1 H2 H3 H4]. constructor; cbn; try assumption. exact I.
+    exfalso. apply (v_rd_some B s H). assumption.
+  - (* ADelReader *) destruct H as [H1 H0 H2 H3 H4]. constructor; cbn; try assumption; try exact I.
+    + destruct (s_rd s); [cbn; discriminate|contradiction].
+    + destruct (s_rd s) as [r|]; cbn; [exact H4|exact I].
+  - (* ADelPart *) destruct H as [H1 H0 H2 H3 H4]. constructor; cbn; try assumption; try exact I.
+    + destruct (s_rd s); [cbn; discriminate|contradiction].
+    + destruct (s_rd s) as [r|]; cbn; [exact H4|exact I].
   - (* AWfa *) destruct (is_acked (s_rp s) (s_last s)); cbn [fst]; apply VInv_set_waits; assumption.
   - (* AWfaPoll *) destruct (poll (s_waits s)). cbn [fst]. apply VInv_set_waits; assumption.
   - (* AWfh *) destruct (s_rd s) as [r|] eqn:Er; [|assumption].
     pose proof (v_rd B s H) as Hr. rewrite Er in Hr.
+    destruct (negb (rd_alive r)); [assumption|].
     destruct (negb (rd_tl r)); [assumption|].
     destruct (hist_received (rd_wp r)); cbn [fst]; apply VInv_set_rd; assumption.
   - (* AWfhPoll *) destruct (s_rd s) as [r|] eqn:Er; [|assumption].
@@ -1083,11 +1089,12 @@ Lemma match_VInv cf s : NInv s -> s_rd s = None -> s_rp s = None -> s_rdead s = 
   VInv (s_last s) (fst (step cf s (AMatch true false))).
 Proof.
   intros HN Hrd Hrp Hdead Hrel. unfold step. cbn [act]. rewrite Hrd, Hrp, Hdead. cbn [orb].
-  destruct (HN Hrp) as [Hnet _].
+  destruct (HN Hrd) as [Hnet _].
   unfold rxo_ok. rewrite Hrel. cbn [implb andb].
   cbn [fst]. apply poke_VInv. apply poke_VInv.
   constructor; cbn.
   - split; [reflexivity|]. intros c Hin Hlt. apply in_le_last_sn in Hin. lia.
+  - discriminate.
   - lia.
   - rewrite Hnet. constructor.
   - unfold RInv, WOk; cbn. repeat split; constructor.
@@ -1134,7 +1141,8 @@ Qed.
 Lemma deliver_dgram_core cf s d : core (deliver_dgram cf s d) = core s.
 Proof.
   unfold deliver_dgram. destruct (dg_toR d).
-  - destruct (s_rdead s); [reflexivity|]. destruct (s_rd s); [|reflexivity].
+  - destruct (s_rdead s); [reflexivity|]. destruct (s_rd s) as [r|]; [|reflexivity].
+    destruct (rd_alive r); [|reflexivity].
     destruct (deliver_subs_R _ _ _ _). reflexivity.
   - revert s. induction (dg_subs d) as [|m t IH]; intros s; cbn [fold_left]; [reflexivity|].
     rewrite IH. apply deliver_sub_W_core.
@@ -1188,7 +1196,7 @@ Proof.
       destruct (core_proj _ _ (deliver_dgram_core cf (set_net s (remove_nth i (s_net s))) d)) as (_ & -> & _). cbn. lia.
     - pose proof (pump_core cf pump_fuel s 0) as Hc. destruct (pump pump_fuel cf s 0) as [s1 n]. cbn [fst] in *.
       destruct (core_proj _ _ Hc) as (_ & -> & _). lia.
-    - destruct (s_rd s); cbn; lia.
+    - destruct (s_rd s) as [r|]; [destruct (rd_alive r)|]; cbn; lia.
     - destruct (s_rd s); [cbn; lia|]. destruct (s_rdead s || _); [cbn; lia|].
       destruct (rxo_ok cf rel tl); cbn [fst]; [|cbn; lia].
       match goal with |- _ <= s_last (poke cf ?st) => destruct (core_proj _ _ (poke_core cf st)) as (_ & -> & _) end.
@@ -1197,7 +1205,8 @@ Proof.
     - cbn. lia.
     - destruct (is_acked _ _); cbn; lia.
     - destruct (poll (s_waits s)). cbn. lia.
-    - destruct (s_rd s) as [r|]; [|cbn; lia]. destruct (negb _); [cbn; lia|]. destruct (hist_received _); cbn; lia.
+    - destruct (s_rd s) as [r|]; [|cbn; lia]. destruct (negb (rd_alive r)); [cbn; lia|].
+      destruct (negb (rd_tl r)); [cbn; lia|]. destruct (hist_received _); cbn; lia.
     - destruct (s_rd s) as [r|]; [|cbn; lia]. destruct (poll (rd_hwaits r)). cbn. lia.
     - cbn. lia.
     - cbn. lia. }
@@ -1250,7 +1259,7 @@ Proof.
       log_same.
     - (* APump *) pose proof (pump_core cf pump_fuel s 0) as Hc. destruct (pump pump_fuel cf s 0) as [s1 n]. cbn [fst] in *.
       destruct (core_proj _ _ Hc) as (_ & _ & _ & -> & _). log_same.
-    - (* ATake *) destruct (s_rd s); log_same.
+    - (* ATake *) destruct (s_rd s) as [r|]; [destruct (rd_alive r)|]; log_same.
     - (* AMatch *) destruct (s_rd s); [log_same|].
       destruct (s_rdead s || _); [log_same|].
       destruct (rxo_ok cf rel tl); cbn [fst]; [|log_same].
@@ -1261,7 +1270,8 @@ Proof.
     - (* AWfa *) destruct (is_acked _ _); log_same.
     - (* AWfaPoll *) destruct (poll (s_waits s)). log_same.
     - (* AWfh *) destruct (s_rd s) as [r|]; [|log_same].
-      destruct (negb _); [log_same|]. destruct (hist_received _); log_same.
+      destruct (negb (rd_alive r)); [log_same|].
+      destruct (negb (rd_tl r)); [log_same|]. destruct (hist_received _); log_same.
     - (* AWfhPoll *) destruct (s_rd s) as [r|]; [|log_same]. destruct (poll (rd_hwaits r)). log_same.
     - (* AQuery *) log_same.
     - (* ANow *) log_same. }
